@@ -71,7 +71,7 @@ pub proof fn lemma_trailing_zeros_of_pad(p: Seq<u8>, k: nat)
     }
 }
 
-// [C11.strip_inverts_pad]  For EVERY payload (empty, maximal, ending in 0x00 or 0x80, ...) and every
+// [C11.strip_inverts_pad C13.decoded_payload_is_the_padded_original]  For EVERY payload (empty, maximal, ending in 0x00 or 0x80, ...) and every
 // number of padding zeros, stripping the padded bytes gives back exactly the payload.
 pub proof fn theorem_strip_pad_roundtrip(p: Seq<u8>, k: nat)
     ensures spec_strip(spec_pad(p, k)) == Some(p)
@@ -175,7 +175,7 @@ rewrite[R8] `restored_payload .iter() .rev() .take_while(|b| **b == 0) .count()`
 requires
         restored_payload_in@.len() < usize::MAX,
 ensures
-        // [C11.strip_inverts_pad]
+        // [C11.strip_inverts_pad C13.decoded_payload_is_the_padded_original]
         match r {
             Ok(v) => spec_strip(restored_payload_in@) == Some(v@),
             Err(e) => e == ReedSolomonDeshredError::InvalidPadding && spec_strip(restored_payload_in@) is None,
